@@ -354,15 +354,28 @@ class Shape(Coordinate):
 
         angle_rad = np.pi * angle / 180.
 
-        # Which point we get if we walk a distance of cell radius in the
-        # desired angle direction?
-        point = cast(complex, self.pos + self._radius * np.exp(angle_rad * 1j))
-
-        # Calculates the distance of this point to all vertices and finds
-        # the closest vertices
-        dists = np.abs(self.vertices - point)
-        # Get the two closest vertices from point
-        closest_vertices = self.vertices[np.argsort(dists)[:2]]
+        # Find the edge that is crossed when we leave the shape's center in
+        # the desired direction: seen from the center, the direction must lie
+        # between the directions of the two vertices of that edge. (Taking
+        # the two vertices closest to the point at a distance of one radius
+        # from the center only works for regular shapes, it gets the wrong
+        # edge for an elongated rectangle)
+        direction = np.exp(angle_rad * 1j)
+        vertices = self.vertices
+        num_vertices = len(vertices)
+        closest_vertices = vertices[[0, 1]]
+        for i in range(num_vertices):
+            j = (i + 1) % num_vertices
+            v1 = vertices[i] - self.pos
+            v2 = vertices[j] - self.pos
+            orientation = v1.real * v2.imag - v1.imag * v2.real
+            side1 = v1.real * direction.imag - v1.imag * direction.real
+            side2 = direction.real * v2.imag - direction.imag * v2.real
+            if orientation < 0:
+                side1, side2 = -side1, -side2
+            if side1 >= 0 and side2 >= 0:
+                closest_vertices = vertices[[i, j]]
+                break
 
         # The equation of a straight line is given by "y = ax + b". We have
         # two points in this line (the two closest vertices) and we can use
